@@ -26,17 +26,19 @@ $(B)/common/%.o: $(H)/%.cpp
 
 # ---------------------------------------------------------------- lock family, one variant per retry number
 define LOCK_VARIANT
-$(B)/lock_r$(1)/repo_%.o: $(REPO)/src/lock/%.cpp $(H)/vsched_prelude.hpp $(H)/vsched_api.hpp
+$(B)/lock_$(1)/repo_%.o: $(REPO)/src/lock/%.cpp $(H)/vsched_prelude.hpp $(H)/vsched_api.hpp
 	@mkdir -p $$(dir $$@)
-	$(CXX) $(COMMON) $(PRELUDE) $(REPODEF) -DDBGROUP_MAX_THREAD_NUM=8 -DCPP_UTILITY_SPINLOCK_RETRY_NUM=$(1) -I$(REPO)/include -c $$< -o $$@
-$(B)/lock_r$(1)/interp_lock.o: $(H)/interp_lock.cpp
+	$(CXX) $(COMMON) $(PRELUDE) $(3) -DDBGROUP_MAX_THREAD_NUM=8 -DCPP_UTILITY_SPINLOCK_RETRY_NUM=$(2) -I$(REPO)/include -c $$< -o $$@
+$(B)/lock_$(1)/interp_lock.o: $(H)/interp_lock.cpp
 	@mkdir -p $$(dir $$@)
-	$(CXX) $(COMMON) -fno-access-control $(PRELUDE) $(REPODEF) -DDBGROUP_MAX_THREAD_NUM=8 -DCPP_UTILITY_SPINLOCK_RETRY_NUM=$(1) -I$(REPO)/include -c $$< -o $$@
-$(B)/lock_r$(1)/lock_harness: $(B)/lock_r$(1)/interp_lock.o $(foreach s,$(LOCK_SRCS),$(B)/lock_r$(1)/repo_$(s).o) $(B)/common/vsched_rt.o $(B)/common/gen_lock.o $(B)/common/lock_main.o
+	$(CXX) $(COMMON) -fno-access-control $(PRELUDE) $(3) -DDBGROUP_MAX_THREAD_NUM=8 -DCPP_UTILITY_SPINLOCK_RETRY_NUM=$(2) -I$(REPO)/include -c $$< -o $$@
+$(B)/lock_$(1)/lock_harness: $(B)/lock_$(1)/interp_lock.o $(foreach s,$(LOCK_SRCS),$(B)/lock_$(1)/repo_$(s).o) $(B)/common/vsched_rt.o $(B)/common/gen_lock.o $(B)/common/lock_main.o
 	$(CXX) $(STD) $(SAN) -pthread $$^ -lrapidcheck -o $$@
 endef
-$(eval $(call LOCK_VARIANT,1))
-$(eval $(call LOCK_VARIANT,10))
+$(eval $(call LOCK_VARIANT,r1,1,$(REPODEF)))
+$(eval $(call LOCK_VARIANT,r10,10,$(REPODEF)))
+# the library as CMake configures it on a machine without <x86intrin.h>: no spin-loop hint, spin loops are bare re-reads
+$(eval $(call LOCK_VARIANT,r3nohint,3,-DCPP_UTILITY_BACKOFF_TIME=10))
 
 # libFuzzer second engine for the lock family (clang; instrumented library + interpreter give the coverage signal)
 LFUZZ := -std=c++20 -g -O1 -fno-omit-frame-pointer -fsanitize=fuzzer-no-link,address,undefined -fno-sanitize-recover=undefined -pthread -I$(H) -MMD -MP
@@ -52,7 +54,7 @@ $(B)/lock_fuzz/%.o: $(H)/%.cpp
 $(B)/lock_fuzz/lock_fuzz: $(B)/lock_fuzz/lock_fuzz.o $(B)/lock_fuzz/interp_lock.o $(B)/lock_fuzz/vsched_rt.o $(foreach s,$(LOCK_SRCS),$(B)/lock_fuzz/repo_$(s).o)
 	clang++ -std=c++20 -fsanitize=fuzzer,address,undefined -pthread $^ -o $@
 
-lock: $(B)/lock_r1/lock_harness $(B)/lock_r10/lock_harness $(B)/lock_fuzz/lock_fuzz
+lock: $(B)/lock_r1/lock_harness $(B)/lock_r10/lock_harness $(B)/lock_r3nohint/lock_harness $(B)/lock_fuzz/lock_fuzz
 
 # ---------------------------------------------------------------- thread family, one variant per capacity
 THREAD_SRCS := $(basename $(notdir $(wildcard $(REPO)/src/thread/*.cpp))) $(addprefix component/,$(basename $(notdir $(wildcard $(REPO)/src/thread/component/*.cpp))))
@@ -66,7 +68,7 @@ $(B)/thread_c$(1)/interp_thread.o: $(H)/interp_thread.cpp
 $(B)/thread_c$(1)/thread_harness: $(B)/thread_c$(1)/interp_thread.o $(foreach s,$(THREAD_SRCS),$(B)/thread_c$(1)/repo_$(s).o) $(B)/common/vsched_rt.o $(B)/common/gen_thread.o $(B)/common/thread_main.o
 	$(CXX) $(STD) $(SAN) -pthread $$^ -lrapidcheck -o $$@
 endef
-THREAD_CAPS := 1 2 3 4 5 6 7 8
+THREAD_CAPS := 1 2 3 4 5 6 7 8 70
 $(foreach c,$(THREAD_CAPS),$(eval $(call THREAD_VARIANT,$(c))))
 thread: $(foreach c,$(THREAD_CAPS),$(B)/thread_c$(c)/thread_harness)
 
@@ -91,7 +93,18 @@ $(B)/zipf/zipf_fuzz.o: $(H)/zipf_fuzz.cpp
 	$(FUZZ_CXX) $(FUZZFLAGS) -c $< -o $@
 $(B)/zipf/zipf_fuzz: $(B)/zipf/zipf_fuzz.o $(foreach s,$(RANDOM_SRCS),$(B)/zipf/fuzz_repo_$(s).o)
 	$(FUZZ_CXX) -std=c++20 -fsanitize=fuzzer,address,undefined -pthread $^ -o $@
-zipf: $(B)/zipf/zipf_harness $(B)/zipf/zipf_fuzz
+# ThreadSanitizer build of the same worker (C19: several threads share one const generator; a data race inside
+# the const calls ends the process and the driver reports it as ZIPF-RACE)
+TSANFLAGS := $(STD) -g -O1 -fno-omit-frame-pointer -fsanitize=thread -I$(H) -I$(REPO)/include -MMD -MP
+$(B)/zipf_tsan/repo_%.o: $(REPO)/src/random/%.cpp
+	@mkdir -p $(dir $@)
+	$(CXX) $(TSANFLAGS) -c $< -o $@
+$(B)/zipf_tsan/zipf_main.o: $(H)/zipf_main.cpp
+	@mkdir -p $(dir $@)
+	$(CXX) $(TSANFLAGS) -c $< -o $@
+$(B)/zipf_tsan/zipf_harness: $(B)/zipf_tsan/zipf_main.o $(foreach s,$(RANDOM_SRCS),$(B)/zipf_tsan/repo_$(s).o)
+	$(CXX) $(STD) -fsanitize=thread -pthread $^ -lrapidcheck -o $@
+zipf: $(B)/zipf/zipf_harness $(B)/zipf/zipf_fuzz $(B)/zipf_tsan/zipf_harness
 
 # ---------------------------------------------------------------- C20: sequential EpochManager model (rc::state; no prelude)
 define SEQ_VARIANT
@@ -104,7 +117,7 @@ $(B)/seq_c$(1)/epoch_seq.o: $(H)/epoch_seq.cpp
 $(B)/seq_c$(1)/epoch_seq: $(B)/seq_c$(1)/epoch_seq.o $(foreach s,$(THREAD_SRCS),$(B)/seq_c$(1)/repo_$(s).o)
 	$(CXX) $(STD) $(SAN) -pthread $$^ -lrapidcheck -o $$@
 endef
-SEQ_CAPS := 2 3 5
+SEQ_CAPS := 2 3 5 70
 $(foreach c,$(SEQ_CAPS),$(eval $(call SEQ_VARIANT,$(c))))
 seq: $(foreach c,$(SEQ_CAPS),$(B)/seq_c$(c)/epoch_seq)
 
